@@ -82,6 +82,8 @@ func outsideRepos(prefix string) []string {
 	return outside
 }
 
+var nestCount int
+
 func newWorld(run *evid.Run, prefix string) *world {
 	w := &world{run: run, prefix: prefix, sentinel: map[string]string{}}
 	a, b := ocimem.New(), ocimem.New()
@@ -94,7 +96,19 @@ func newWorld(run *evid.Run, prefix string) *world {
 		}
 	}
 	w.recd = rec.New(a)
-	w.sub = model.NewEnv(ocifilter.Sub(w.recd.Interface(), prefix))
+	// a view of a view is the view of the joined prefix: every other world with a multi-element
+	// prefix is built by nesting Sub, one element at a time
+	nestCount++
+	if parts := strings.Split(prefix, "/"); len(parts) > 1 && nestCount%2 == 0 {
+		view := w.recd.Interface()
+		for _, p := range parts {
+			view = ocifilter.Sub(view, p)
+		}
+		w.sub = model.NewEnv(view)
+		run.Count("worlds_with_nested_sub", 1)
+	} else {
+		w.sub = model.NewEnv(ocifilter.Sub(w.recd.Interface(), prefix))
+	}
 	w.twin = model.NewEnv(b)
 	// listings are ranged over twice (same Seq value): the second pass has to give the same answer
 	w.sub.Reiterate, w.twin.Reiterate = true, true
@@ -273,7 +287,7 @@ func (w *world) step(rng *rand.Rand, op *model.Op) (ok bool) {
 
 func main() {
 	run := evid.Start("C13", "exploration")
-	run.SetRule("cases: (a) every Interface method × caller names (valid, absent, and ill-formed: empty, '.', '..', '../x', 'a/../../x', '/x', 'x/', 'a//b', upper case, …) × prefixes of 1–3 elements, each under a PRNG-chosen auth scope; (b) histories through Sub next to a twin registry called with prefixed names; (c) repository listings from start points absent/element/between/outside. " +
+	run.SetRule("cases: (a) every Interface method × caller names (valid, absent, and ill-formed: empty, '.', '..', '../x', 'a/../../x', '/x', 'x/', 'a//b', upper case, …) × prefixes of 1–3 elements (multi-element ones alternately as one Sub and as nested Subs), each under a PRNG-chosen auth scope; (b) histories through Sub next to a twin registry called with prefixed names; (c) repository listings from start points absent/element/between/outside. " +
 		"distinct_nontrivial = distinct (method, name class, outcome class, scope present?); trivial = none (every call is checked for confinement).")
 	run.Assume("for an ill-formed caller name any failure is accepted; success is a violation because prefix/n is then not a repository name")
 	run.Assume("auth scopes in generated contexts have non-empty resource names")
